@@ -137,7 +137,7 @@ theorem eofClosure_acc (k : Nat) (hc : P.cut k) (h : Tr P s0 s) :
 @[grind ←] theorem innerSendReset_acc (k : Nat) (r : Reason) (hc : CutAll P) (h : Tr P s0 s) :
     Tr P s0 (s.innerSendReset k r).1 := by
   unfold Streams.innerSendReset; fid_grind
-@[grind ←] theorem bufferPending_acc (n : Nat) (w : Writer) (hw : P.write) (hc : CutAll P) (h : Tr P s0 s) :
+@[grind ←] theorem bufferPending_acc (n : Nat) (w : Writer) (hw : P.write) (hp : P.pop) (hc : CutAll P) (h : Tr P s0 s) :
     Tr P s0 (Streams.bufferPending n s w).1 := by
   unfold Streams.bufferPending; fid_grind
 @[grind ←] theorem pollSendPendingRefusal_acc (n : Nat) (w : Writer) (io : Tio) (t : String) (h : Tr P s0 s) :
@@ -220,7 +220,7 @@ theorem cancelPromises_acc (l : List Nat) (hr : RclearAll P) (h : Tr P s0 s) :
   unfold Streams.pollPendingOpen; fid_grind
 
 /-- `Streams::poll_complete`: the write path -/
-theorem pollComplete_acc (n : Nat) (w : Writer) (io : Tio) (t : String) (hw : P.write) (hc : CutAll P) (h : Tr P s0 s) :
+theorem pollComplete_acc (n : Nat) (w : Writer) (io : Tio) (t : String) (hw : P.write) (hp : P.pop) (hc : CutAll P) (h : Tr P s0 s) :
     Tr P s0 (Streams.pollComplete n s w io t).1 := by
   induction n generalizing s w io with
   | zero => unfold Streams.pollComplete; exact panic_acc _ h
